@@ -36,7 +36,7 @@ def build(unit_name, sources, repo, verif, extra=()):
 
 def run(exe, args, timeout=300):
     p = subprocess.run([exe] + [str(a) for a in args], capture_output=True, text=True, timeout=timeout)
-    out = p.stdout
+    out = '\n'.join(l for l in p.stdout.splitlines() if l.startswith(('REPRODUCED', 'NOT-REPRODUCED', 'INFO')))
     m = re.search(r'^REPRODUCED: (.*)$', out, re.M)
     if m:
         return dict(reproduced=True, failing_input=m.group(1), driver_output=out[-3000:], driver_cmd=' '.join([os.path.basename(exe)] + [str(a) for a in args]))
